@@ -179,6 +179,7 @@ class Model:
         for name, ts in data["named"].items():
             self.named[lkey(URIRef(name))] = (URIRef(name), {tuple(dec(x) for x in t) for t in ts})
         self.fresh = 0
+        self.probe_off = False
 
     def graph(self, term, create=True):
         if term is None: return self.default
@@ -238,6 +239,15 @@ class Model:
             with_ = dec(op[1]) if op[1] else None
             using = [dec(u) for u in op[4]]
             sols = R.eval_pattern(op[5], self.ctx(union, with_, using))
+            if not self.probe_off:
+                # the WHERE clause of a generated update stays outside the push-down region of C04 (static predicate at generation time);
+                # the dynamic probe closes the gaps of that predicate: where pushing bindings down would change the solutions, the case is dropped
+                vs = sorted(R.in_scope(op[5]))
+                k_ = lambda sols_: sorted(sorted((v, str(R.rkey(m[v]))) for v in vs if m.get(v) is not None) for m in sols_)
+                try:
+                    if k_(R.eval_seeded(op[5], self.ctx(union, with_, using), {})) != k_(sols): raise R.Latitude("push-down region")
+                except R.Err:
+                    raise R.Latitude("push-down region")
             dels, ins = [], []
             for mu in sols:
                 if op[2] is not None: dels += self.instantiate(op[2], mu, with_, {})
@@ -306,6 +316,7 @@ def run_case(case, st=None):
     cont = case["cont"]
     union = case["switch"] and cont in ("cg", "dsu")
     model = Model(case["data"])
+    model.probe_off = bool(case.get("no_carve"))
     try:
         for op in case["ops"]:
             if cont == "graph" and op[0] in ("modify",) and (op[1] or op[4]): continue
